@@ -1,4 +1,5 @@
 import ComposeVerif.Model.C11Defaults
+import ComposeVerif.Model.Paths
 /-!
 # C11 — model of `loader.Normalize`  (loader/normalize.go)
 
@@ -9,7 +10,8 @@ assertions of one function report the same site, so the outcome does not depend 
 order).  When all hold the result is the pure function `normalizePure`.
 
 `clean` stands for Go's `path.Clean` (standard library).  The driver instantiates it with
-`pathClean` below (tied by its own correspondence op); the theorems only use that it is idempotent.
+`pathClean` below (tied by its own correspondence op); the general theorems only use that it is idempotent,
+and `pathClean_idempotent` discharges that for the instance.
 -/
 namespace CV.C11
 open CV CV.Val
@@ -50,31 +52,13 @@ def volFromTarget (s : String) : String :=
   | a :: _ => String.ofList a
   | [] => s
 
-/-! ## `path.Clean` (lexical) -/
+/-! ## `path.Clean` (lexical)
 
-def cleanComps (rooted : Bool) : List (List Char) → List (List Char) → List (List Char)
-  | [], st => st.reverse
-  | c :: r, st =>
-    if c = [] || c = ['.'] then cleanComps rooted r st
-    else if c = ['.', '.'] then
-      match st with
-      | t :: st' => if t = ['.', '.'] then cleanComps rooted r (c :: st) else cleanComps rooted r st'
-      | [] => if rooted then cleanComps rooted r [] else cleanComps rooted r [c]
-    else cleanComps rooted r (c :: st)
+`path.Clean` and Unix `filepath.Clean` are the same lexical function; the model is C12's
+`CV.Paths.clean` (Model/Paths.lean, `clean_idem` in Lemmas/PathsClean.lean), tied to `path.Clean`
+by this property's own correspondence op `c11.clean`. -/
 
-def joinSlash : List (List Char) → List Char
-  | [] => []
-  | [a] => a
-  | a :: r => a ++ '/' :: joinSlash r
-
-def pathClean (s : String) : String :=
-  match s.toList with
-  | [] => "."
-  | c :: _ =>
-    let rooted := c = '/'
-    let body := joinSlash (cleanComps rooted (splitChar '/' s.toList) [])
-    if rooted then String.ofList ('/' :: body)
-    else if body = [] then "." else String.ofList body
+def pathClean (s : String) : String := String.ofList (CV.Paths.clean s.toList)
 
 /-! ## `resolve` (build args / environment against the project environment) -/
 
